@@ -768,6 +768,8 @@ def run(ctx):
     #            comparison is restricted to coordinates that are 0 or of magnitude in [1e-30, 1e30]
     #            (no overflow / gradual underflow anywhere in the computation).
     gen_stream(ctx, impl, exact_cases, float_cases)
+    # ======== "sitecov" input stream - self-contained, implemented at the end of this file; keep this call last ========
+    _sitecov_tail(ctx)
 
 
 GEN_FUNCTIONS = ['clip_code', 'clip_segment']
@@ -803,11 +805,11 @@ def gen_stream(ctx, impl, exact_cases, float_cases):
     budget = ctx.n(9000)
     jobs = []      # (kind, seg, bounds)
     ex = exact_cases if len(exact_cases) <= budget else \
-        exact_cases[:200] + [exact_cases[i] for i in sorted(ctx.rng.sample(range(200, len(exact_cases)), budget - 200))]
+        exact_cases[:200] + [exact_cases[i] for i in sorted(ctx.rng.sample(range(200, len(exact_cases)), max(0, min(len(exact_cases) - 200, budget - 200))))]
     for (s, b) in ex:
         jobs.append(('exact', [[F(v) for v in p] for p in s], [[F(v) for v in p] for p in b]))
     fl = float_cases if len(float_cases) <= budget else \
-        float_cases[:200] + [float_cases[i] for i in sorted(ctx.rng.sample(range(200, len(float_cases)), budget - 200))]
+        float_cases[:200] + [float_cases[i] for i in sorted(ctx.rng.sample(range(200, len(float_cases)), max(0, min(len(float_cases) - 200, budget - 200))))]
     skipped = 0
     for (s, b) in fl:
         s = [[float(v) for v in p] for p in s]; b = [[float(v) for v in p] for p in b]
@@ -851,3 +853,78 @@ def gen_stream(ctx, impl, exact_cases, float_cases):
     ctx.notes.append(f"generated-code stream: Gen.clip_segment/Gen.clip_code vs the real functions: {n['exact']} Fraction cases under "
                      f"Rounding.exact ({bad['exact']} differ), {n['ieee']} double cases under Rounding.ieee compared bit for bit "
                      f"({bad['ieee']} differ; {skipped} cases outside [1e-30,1e30] not compared); fuel {GEN_FUEL}; {time.time() - t_start:.1f}s")
+
+
+# ================================================================================================
+# "sitecov" input stream (harness/sitecov.py, DESIGN 3c): every comparison / bit test of the CURRENT source of
+# clip_segment and clip_code is driven to lhs == rhs and to either side, separately for the first executions of each
+# site in a call (endpoint 1, endpoint 2, after the first clip ...), by exact moves on the eight Fraction coordinates;
+# the inputs found go through run() itself (exact stream: real code, Lean model bit for bit, geometric oracle,
+# sequence stream, generated-code stream) and are additionally counted under the path 'sitecov'.
+# Self-contained block at the end of the file on purpose (the body of `run` is untouched except for its last line).
+# ================================================================================================
+def _sitecov_plain_case(rng, kind=None):
+    """a case WITHOUT boundary bias (large denominators: coincidences with an edge do not happen by chance)"""
+    den = rng.choice([97, 1009, 10007])
+    g = lambda: F(rng.randint(-8 * den, 10 * den), den)      # noqa: E731
+    xs, ys = sorted([g(), g()]), sorted([g(), g()])
+    return ((g(), g()), (g(), g())), ((xs[0], ys[0]), (xs[1], ys[1]))
+
+
+def _sitecov_domain(a):
+    seg, b = a
+    vals = [v for p in list(seg) + list(b) for v in p]
+    if not all(type(v) in (int, F) and abs(v) <= 10 ** 6 for v in vals):       # the scale of the module's exact generators
+        return False
+    return b[0][0] <= b[1][0] and b[0][1] <= b[1][1]
+
+
+def _sitecov_adjust(args, path):
+    """keep min <= max: when one corner coordinate of the rectangle is moved past the opposite one, drag that one along"""
+    seg, b = args
+    if path[0] == 1:
+        i, j = path[1], path[2]
+        if i == 0 and b[0][j] > b[1][j]:
+            b[1][j] = b[0][j]
+        elif i == 1 and b[1][j] < b[0][j]:
+            b[0][j] = b[1][j]
+    return (seg, b)
+
+
+def _sitecov_rerun(ctx, cases):
+    from . import sitecov
+    exact = [('exact', [[F(v) for v in p] for p in s], [[F(v) for v in p] for p in b]) for (s, b) in cases]
+    cut = sitecov.rerun_patched(ctx, globals(), over={'scale': 0},
+                                patches={'load_corpus': lambda _ctx: list(exact), 'grid_cases': lambda: iter(()),
+                                         'RECTS': [], 'axis_cases': lambda b: iter(())})
+    if cut:     # the nested pass ended at its path-coverage requirement: the generated-code stream comes after it
+        gen_stream(ctx, Impl(), [(s, b) for (_, s, b) in exact], [])
+        del ctx.notes[-1:]
+
+
+def _sitecov_tail(ctx):
+    if getattr(ctx, '_in_sitecov', False) or getattr(ctx, '_only_main', False) or getattr(ctx, 'replay', None) \
+            or os.environ.get('SITECOV_OFF'):
+        return
+    from . import sitecov
+    from plotink import plot_utils as pu
+    rng = ctx.rng
+    gen = _sitecov_plain_case if os.environ.get('SITECOV_ONLY') else structured_case
+    seeds = []
+    for _ in range(160):
+        (p, q), b = gen(rng)
+        seeds.append(([[F(p[0]), F(p[1])], [F(q[0]), F(q[1])]], [[F(b[0][0]), F(b[0][1])], [F(b[1][0]), F(b[1][1])]]))
+    sitecov.stream(ctx, 'clip_segment', pu.clip_segment, seeds, rerun=lambda cs: _sitecov_rerun(ctx, cs),
+                   moves=sitecov.Moves(domain=_sitecov_domain, adjust=_sitecov_adjust, groups=lambda path, v: 'xy'[path[-1]]),
+                   budget=4000, max_inputs=300)
+
+
+if os.environ.get('SITECOV_ONLY'):
+    # EXPERIMENT ONLY (measures what the sitecov stream finds on its own): corpus, lattice grids, axis cases and the
+    # structured (corner-aimed, grazing, ...) generators are disabled, the float streams are switched off
+    from . import sitecov as _sc
+    _sc.only_mode(globals(), tail=_sitecov_tail, environ={'C08_NFLOAT': '0', 'C08_NFAR': '0'},
+                  patches={'load_corpus': lambda _ctx: [], 'grid_cases': lambda: iter(()), 'RECTS': [],
+                           'axis_cases': lambda b: iter(()), 'structured_case': _sitecov_plain_case},
+                  note='corpus, lattice grids, axis-parallel families, structured boundary generators and the float streams are '
+                       'disabled; inputs = unbiased random rational cases + the sitecov stream')
